@@ -376,6 +376,7 @@ def gen_hfp_slc(rng, tier, seed):
     return {'hf': subset(HF_FEATURES), 'ag': subset(AG_FEATURES), 'hf_ind': rng.sample([1, 2], rng.randint(0, 2)), 'ag_hf_ind': rng.sample([1, 2], rng.randint(0, 2)),
             'hf_codecs': rng.sample([1, 2, 3], rng.randint(1, 3)), 'ag_codecs': rng.sample([1, 2, 3], rng.randint(1, 3)),
             'chld': rng.sample(['0', '1', '1x', '2', '2x', '3', '4'], rng.randint(0, 7)), 'extra_ind': rng.random() < 0.5,
+            'ind_values': ({str(rng.randrange(3, 7)): rng.choice([[0, 2, 5], [1, 3], [4], [0, 1, 2, 3, 7], [0, 5]])} if rng.random() < 0.3 else {}),
             'mfs': rng.choice([23, 127, 1000]), 'credits': rng.randint(1, 7), 'profile': rng.choice(PROFILE_NAMES),
             # after the SLC: indicator updates by the AG, some of them while a command of the HF is awaiting its OK
             'live': [[rng.randrange(7), rng.randrange(2), rng.choice(['none', 'cmd-then-update', 'update-then-cmd']), rng.choice(['AT+VGS=7', 'AT+VGM=3', 'AT+NREC=0'])]
@@ -408,6 +409,12 @@ def _ag_config(hfp, case):
             hfp.AgIndicatorState.signal(), hfp.AgIndicatorState.roam(), hfp.AgIndicatorState.battchg()]
     if not case.get('extra_ind', True):
         inds = inds[:3]
+    # a gateway whose indicators take other value sets than the defaults: a single value, a pair, a set with gaps
+    for k, vals in (case.get('ind_values') or {}).items():
+        k = int(k)
+        if k < len(inds):
+            inds[k].supported_values = set(vals)
+            inds[k].current_status = min(vals)
     return hfp.AgConfiguration(
         supported_ag_features=[hfp.AgFeature[n] for n in case['ag']], supported_ag_indicators=inds,
         supported_hf_indicators=[hfp.HfIndicator(i) for i in case['ag_hf_ind']],
